@@ -32,6 +32,43 @@ CHECKS = {
         "assumptions": A_COMMON + A_STORE,
         "maxpaths": 3000000,
     },
+    "C10": {
+        "quick": [
+            {"name": STAKE + "ZZ_C10_U1", "reach": ["U1 end"], "bound": "all pairs of subsets of a 4-address pool (address-sorted, duplicate-free), symbolic powers"},
+            {"name": STAKE + "ZZ_C10_U23", "reach": ["U23 end"], "bound": "<=3 committed delegatees (+1 overlay-only), symbolic self/delegated power, symbolic MinValidatorStake, MaxValidatorCnt in {1,2,3}; blocks 2,3,4 with a committed change of delegatee 0 in between"},
+        ],
+        "bounds": "U1: <=4 old x <=4 new validators; U2/U3/U5: <=3 delegatees, 3 consecutive blocks",
+        "outside": "more delegatees; Tendermint's own application of updates (A-TM); validator set after a process restart (shares the C07 restart check)",
+        "assumptions": A_COMMON + A_STORE + ["A-GOV: governance parameters in sane ranges (ratios 0..100, 1<=maxValidatorCnt<=100, periods < 2^40)"],
+    },
+    "C11": {
+        "quick": [
+            {"name": STAKE + "ZZ_C11_B1", "reach": ["B1 end", "staking ok", "staking rejected", "unstaking ok", "unstaking rejected"], "bound": "state: delegatees A0,A1 each optional with a self stake and an optional delegated stake, optional unbonding stake, all powers symbolic; one staking or unstaking tx with arbitrary sender/target/stake reference/amount; then Commit"},
+            {"name": STAKE + "ZZ_C11_B3", "reach": ["B3 end", "staking ok", "unstaking ok"], "bound": "one delegatee; 3 transactions in one block from {stake to A0 by A0/A2, unstake any existing stake by A0/A2} incl. delete/re-create/modify of the delegatee; then Commit"},
+        ],
+        "bounds": "<=2 delegatees x <=3 stakes; 1 step from arbitrary state (B1), 3 steps in one block (B3)",
+        "outside": "more stakes per delegatee; slashing and jailing steps (decided under C14); stake limiter active (needs >=3 validators)",
+        "assumptions": A_COMMON + A_STORE + ["A-GOV: governance parameters in sane ranges", "accounts are a plain address->Account book in these harnesses (the account controller is exercised by node-level harnesses)"],
+    },
+    "C12": {
+        "quick": [
+            {"name": STAKE + "ZZ_C12_O12", "reach": ["O12 accepted", "O12 rejected"], "bound": "arbitrary state as in C11/B1, one unstaking tx with arbitrary sender/target/stake reference at a symbolic height"},
+            {"name": STAKE + "ZZ_C12_O3", "reach": ["O3 end"], "bound": "1..3 unbonding stakes with symbolic owner/power/refund height, EndBlock+Commit at symbolic height h and h+1, unbonding period changed in between"},
+            {"name": STAKE + "ZZ_C12_O4", "reach": [], "bound": "two genesis validators (zero TxHash) unbond in one block"},
+        ],
+        "bounds": "<=2 delegatees, <=3 unbonding stakes, two consecutive block ends",
+        "outside": "force-release by downtime jailing (C14/S4 asserts the same refund height); more concurrent unbonding stakes",
+        "assumptions": A_COMMON + A_STORE + ["A-GOV"],
+    },
+    "C13": {
+        "quick": [
+            {"name": STAKE + "ZZ_C13_W12", "reach": ["W12 end"], "bound": "2 delegatees x <=3 stakes at version 1, one more delegation at version 2; BeginBlock at heights 2..6 with votes (signed / power-matching symbolic per validator)"},
+            {"name": STAKE + "ZZ_C13_W34", "reach": ["W34 accepted", "W34 rejected"], "bound": "one reward record (optional, committed or not) with two symbolic issuances; one withdraw tx with symbolic ReqAmt and Amount, then a second one"},
+        ],
+        "bounds": "<=2 validators voting, <=3 stakes each, heights 2..6",
+        "outside": "the 4-block lag of Tendermint itself (A-TM); reward amounts >= 2^120",
+        "assumptions": A_COMMON + A_STORE + ["A-GOV: rewardPerPower < 2^64"],
+    },
     "C14": {
         "quick": [
             {"name": STAKE + "ZZ_C14_S1", "reach": ["S1 end"], "bound": "<=3 stakes, symbolic powers in (0,2^55], ratio in [0,100]"},
